@@ -12,6 +12,7 @@ MANIFEST = {
     }
 }
 PROPS = ["Nstd.Buffer.Props"]
+LEAN_TARGETS = PROPS + ["drv_buffer"]
 DRIVER = "drv_buffer"
 REGLEN = [8, 5]
 REGBASE = [0x10, 0x20]
